@@ -261,7 +261,54 @@ int main(int argc, char** argv) {
     f3.rule = "each base text preceded by k in 0..139 spaces and with k%7 spaces after every comma/colon";
     fams.push_back(f3);
 
+    // OK: long keys with an escape at every offset relative to the vector blocks
+    vr::Family f4;
+    f4.name = "OK_long_escaped_keys";
+    f4.count = 71ull * 71 * 5;
+    f4.group = "OK";
+    f4.chunk = 128;
+    f4.rule = "objects whose first key is x^p ESC y^q (p,q in 0..70, ESC in {\\u0041, \\/, \\n, \\\", \\\\}) followed by other members: lookups by the decoded key, below it, of the following member, and by near-miss keys";
+    fams.push_back(f4);
+    static const char* kEsc[5] = {"\\u0041", "\\/", "\\n", "\\\"", "\\\\"};
+    static const char* kDec[5] = {"A", "/", "\n", "\"", "\\"};
     check = [&, NN, NP](const vr::Family& f, uint64_t idx, vr::Ctx& ctx) {
+      if (f.name[1] == 'K') {
+        unsigned ek = (unsigned)(idx % 5);
+        idx /= 5;
+        unsigned q = (unsigned)(idx % 71), p = (unsigned)(idx / 71);
+        std::string K = std::string(p, 'x') + kDec[ek] + std::string(q, 'y');
+        std::string text = "{\"" + std::string(p, 'x') + kEsc[ek] + std::string(q, 'y') + "\":[1,{\"x\":2}],\"b\":3}";
+        ref::Result r = ref::parse(text);
+        if (!r.ok) {
+          ctx.violation("generator_invalid", "generator_invalid", text, "harness error: generated text is not valid");
+          return;
+        }
+        if (ctx.want_sample) ctx.sample(text);
+        std::vector<std::vector<ref::Step>> ps;
+        auto key = [](const std::string& k) {
+          ref::Step st;
+          st.key = k;
+          return st;
+        };
+        auto num = [](int i) {
+          ref::Step st;
+          st.is_num = true;
+          st.num = i;
+          return st;
+        };
+        ps.push_back({key(K)});
+        ps.push_back({key(K), num(1), key("x")});
+        ps.push_back({key("b")});
+        ps.push_back({key(K + "#")});
+        ps.push_back({key(std::string(p, 'x') + kEsc[ek] + std::string(q, 'y'))});  // the raw spelling is a different key
+        ps.push_back({key(K.substr(0, K.size() ? K.size() - 1 : 0))});
+        std::vector<JsonPointer> pj;
+        for (auto& x : ps) pj.push_back(sc::to_pointer(x));
+        static const std::vector<ref::Step> nopre;
+        static const JsonPointer nojp;
+        c10_text(text, r.v, ps, pj, nopre, nojp, ctx);
+        return;
+      }
       if (f.name[1] == 'D') {
         const std::string& s = (*odtexts)[idx];
         ref::Result r = ref::parse(s);
